@@ -39,24 +39,27 @@ _NODE = re.compile(r'^(-?\d+) \[label="((?:[^"\\]|\\.)*)"(.*)$')
 _EDGE = re.compile(r'^(-?\d+) -> (-?\d+) \[label="([^"]*)"')
 
 def load_dot(path):
-    """Parse a TLC `-dump dot,actionlabels` file -> (states {id: {var: value}}, succ {id: [id]}, [initial ids])."""
-    states, succ, inits = {}, {}, []
+    """Parse a TLC `-dump dot,actionlabels` file -> (states {id: {var: value}}, succ {id: [id]}, [initial ids]).
+    Node ids are made canonical (rank of the state's text), so the result does not depend on TLC's fingerprint
+    seed or worker scheduling."""
+    label, edges, init_raw = {}, [], []
     with open(path) as f:
         for line in f:
             m = _EDGE.match(line)
             if m:
-                a, b = m.group(1), m.group(2)
-                lst = succ.setdefault(a, [])
-                if b not in lst:
-                    lst.append(b)
+                edges.append((m.group(1), m.group(2)))
                 continue
             m = _NODE.match(line)
             if m:
-                nid = m.group(1)
-                states[nid] = tlaparse.parse_conj(_dot_unescape(m.group(2)))
+                label[m.group(1)] = m.group(2)
                 if "style = filled" in m.group(3):
-                    inits.append(nid)
-    return states, succ, inits
+                    init_raw.append(m.group(1))
+    rank = {nid: i for i, (nid, _) in enumerate(sorted(label.items(), key=lambda kv: kv[1]))}
+    states = {rank[nid]: tlaparse.parse_conj(_dot_unescape(txt)) for nid, txt in label.items()}
+    succ = {}
+    for a, b in sorted({(rank[a], rank[b]) for a, b in edges}):
+        succ.setdefault(a, []).append(b)
+    return states, succ, sorted(rank[i] for i in init_raw)
 
 def edge_cover(inits, succ, rng, max_steps, max_len=64):
     """Paths (lists of node ids, each starting at an initial state) that together traverse every edge of the graph,
@@ -198,9 +201,9 @@ def abs_act(a):
     if name == "Queue":
         out["op"] = _op(a["op"])
     elif name in ("PubFail", "PriFail"):
-        out["k"] = int(a["k"])
+        out["k"] = int(a["k"]); out["n"] = int(a["n"])
     elif name == "Crash":
-        out["db"] = str(a["db"]); out["k"] = int(a["k"])
+        out["db"] = str(a["db"]); out["k"] = int(a["k"]); out["n"] = int(a["n"])
     return out
 
 def behaviour_of(states):
@@ -296,15 +299,21 @@ class DbWorld:
 
     # -- fault plan ----------------------------------------------------------------------------------------------
     def hit(self, which, commit):
+        """Called before every row-statement on a modelled table and before every commit of connection `which`.
+        Plan {db, k, n, mode}: statement k fails (k < n), or the commit that follows the n-th statement (k = n)."""
         p = self.plan
         if not p or p["db"] != which or p.get("done"):
             return
-        if commit or self.count == p["k"]:
-            p["done"] = True
-            if p["mode"] == "crash":
-                os._exit(CRASH_EXIT)                        # no rollback, no close: the process is gone
-            raise sqlite3.OperationalError("database is locked (injected)")
-        self.count += 1
+        if commit:
+            if not (p["k"] >= p["n"] and self.count >= p["n"]):
+                return
+        elif not (self.count == p["k"] and p["k"] < p["n"]):
+            self.count += 1
+            return
+        p["done"] = True
+        if p["mode"] == "crash":
+            os._exit(CRASH_EXIT)                        # no rollback, no close: the process is gone
+        raise sqlite3.OperationalError("database is locked (injected)")
 
     # -- life cycle ----------------------------------------------------------------------------------------------
     def _new_mgr(self, is_restart):
@@ -369,12 +378,15 @@ class DbWorld:
         elif name == "ExecOK":
             self.dbm.process_queued_ops()
         elif name == "PubFail":
-            self.plan = {"db": "pub", "k": act["k"], "mode": "error"}
+            self.plan = {"db": "pub", "k": act["k"], "n": act["n"], "mode": "error"}
             self.dbm.process_queued_ops()
             if not self.plan.get("done"):
+                if self.count == 0:
+                    return (f"the specification has {act['n']} statement(s) to (re)try on the public DB, the implementation "
+                            "executed none: a batch whose public write failed was not kept")
                 return "harness: the planned public-DB fault was never reached"
         elif name == "PriFail":
-            self.plan = {"db": "pri", "k": act["k"], "mode": "error"}
+            self.plan = {"db": "pri", "k": act["k"], "n": act["n"], "mode": "error"}
             try:
                 self.dbm.process_queued_ops()
             except sqlite3.Error:
@@ -383,7 +395,7 @@ class DbWorld:
                 return ("a failing private-DB write did not raise" if self.plan.get("done")
                         else "harness: the planned private-DB fault was never reached")
         elif name == "Crash":
-            self.plan = {"db": act["db"], "k": act["k"], "mode": "crash"}
+            self.plan = {"db": act["db"], "k": act["k"], "n": act["n"], "mode": "crash"}
             pid = os.fork()
             if pid == 0:
                 try:
@@ -419,17 +431,13 @@ class DbWorld:
             conn.close()
         return out
 
-    def pub_pending(self):
-        return any(t.delete_queues or t.insert_queue or t.update_queues
-                   for name, t in self.dbm.pub_dao.tables.items() if name in MODEL_TABLES)
-
 # ------------------------------------------------------------------------------------------------------------------
 
 def replay_behaviour(world, steps):
     """Replay one behaviour.  Returns ([(key, text, failing_index)], stats)."""
     world.reset()
     out = []
-    stats = {"steps": 0, "faults": 0, "crashes": 0, "retries": 0}
+    stats = {"steps": 0, "faults": 0, "crashes": 0, "retries": 0, "nt": []}
     as_is = False           # after the known divergence follow the merged-queue model for the public DB
     for i, st in enumerate(steps):
         act, exp = st["act"], st["exp"]
@@ -443,10 +451,14 @@ def replay_behaviour(world, steps):
             stats["crashes"] += 1
         if name == "ExecOK" and prev and (prev["pending"] or prev["pending_m"]):
             stats["retries"] += 1
+            stats["nt"].append(i)
+        if name in ("PubFail", "PriFail", "Crash", "Recover"):
+            stats["nt"].append(i)
         if err:
             if err.startswith("harness:"):
                 raise RuntimeError(f"{err} at step {i} of {[_fmt_act(s['act']) for s in steps]}")
-            out.append((f"C21_PrivateAtomic:no-exception:{name}", err, i))
+            key = f"C21_BatchRetried:nothing-retried:{name}" if "not kept" in err else f"C21_PrivateAtomic:no-exception:{name}"
+            out.append((key, err, i))
             break
         pri, pub = world.dump("pri"), world.dump("pub")
         if pri != exp["pri"]:
@@ -472,12 +484,6 @@ def replay_behaviour(world, steps):
             nt = world.dbm.pub_dao.n_tries
             if nt != exp["ntries"]:
                 out.append((f"C21_BatchRetried:n_tries:{name}", f"after {_fmt_act(act)} n_tries = {nt}, the specification says {exp['ntries']}", i))
-                break
-            pend_exp = exp["pending_m"] if as_is else exp["pending"]
-            if name in ("PubFail", "ExecOK") and world.pub_pending() != (exp["pending_m"] if name == "PubFail" else pend_exp) \
-                    and not (name == "ExecOK" and exp["pending_m"] != exp["pending"]):
-                out.append((f"C21_BatchRetried:queue:{name}",
-                            f"after {_fmt_act(act)} the public DAO {'keeps' if world.pub_pending() else 'does not keep'} statements for retry", i))
                 break
     return out, stats
 
@@ -539,20 +545,29 @@ def run(ctx):
         dot = os.path.join(ctx.scratch, "db-walk")
         check_model(ctx, "MC_Db_walk", extra=["-dump", "dot,actionlabels", dot])
         states, succ, inits = load_dot(dot + ".dot")
-        paths, n_edges, n_cov = edge_cover(inits, succ, ctx.rng, max_steps=14000 if quick else 10**9)
+        paths, n_edges, n_cov = edge_cover(inits, succ, ctx.rng, max_steps=5000 if quick else 10**9)
         behaviours += [behaviour_of([states[n] for n in p]) for p in paths]
         del states, succ
-        n_sim = 150 if quick else 5000
+        n_sim = 0 if quick else 5000
         simdir = os.path.join(ctx.scratch, "db-sim")
         os.makedirs(simdir)
-        check_model(ctx, "MC_Db" if quick else "MC_Db_thorough", workers=1,
-                    extra=["-simulate", f"file={simdir}/tr,num={n_sim}", "-depth", "14", "-seed", str(2100 + ctx.seed)])
+        if n_sim:
+            check_model(ctx, "MC_Db_thorough", workers=1,
+                        extra=["-simulate", f"file={simdir}/tr,num={n_sim}", "-depth", "14", "-seed", str(2100 + ctx.seed)])
         behaviours += [behaviour_of(tr) for tr in load_sim_traces(simdir)]
         found = {}
+        acts = {}
+        for b in behaviours:
+            for st in b:
+                acts[st["act"]["name"]] = acts.get(st["act"]["name"], 0) + 1
+        ctx.coverage["actions_replayed"] = acts
         tot = {"steps": 0, "faults": 0, "crashes": 0, "retries": 0}
+        nontrivial = set()
         for steps, (res, stats) in zip(behaviours, replay_parallel(ctx, behaviours, 4 if quick else 8)):
             for k in tot:
                 tot[k] += stats[k]
+            for i in stats["nt"]:
+                nontrivial.add(hash(json.dumps([x["act"] for x in steps[: i + 1]], sort_keys=True)))
             for key, text, idx in res:
                 rank = (idx, len(json.dumps([x["act"] for x in steps[: idx + 1]])))
                 if key not in found or rank < found[key][1]:
@@ -566,12 +581,13 @@ def run(ctx):
     cov = ctx.coverage
     cov["traces_validated_against_impl"] = len(behaviours)
     cov["evaluations"] = tot["steps"]
-    cov["distinct_nontrivial"] = tot["faults"] + tot["crashes"]
+    cov["distinct_nontrivial"] = len(nontrivial)
     cov["rule"] = ("behaviours = TLC's counterexample for the merged-queue design (if any) + seeded edge cover of the dumped state "
                    f"graph of MC_Db_walk ({n_cov}/{n_edges} transitions covered) + {n_sim} `tlc -simulate` traces of the exhaustively "
                    "checked model; evaluations = replayed steps (both sqlite files read back and compared after each); "
-                   f"distinct_nontrivial = steps with an injected fault ({tot['faults']} OperationalError at a statement/commit, "
-                   f"{tot['crashes']} process deaths inside a transaction); {tot['retries']} successful batches carried kept statements")
+                   "distinct_nontrivial = distinct histories ending in an injected fault, a recovery or a successful batch that carries kept "
+                   f"statements ({tot['faults']} OperationalError at a statement/commit, {tot['crashes']} process deaths inside a "
+                   f"transaction, {tot['retries']} retries in total)")
     cov["samples"] = [[_fmt_act(s["act"]) for s in b[1:]] for b in behaviours[:: max(1, len(behaviours) // 4)][:4]]
     cov["exhaustive"] = (n_cov == n_edges)
     cov["checker_cmd"] = "tlc MC_Db*.cfg (exhaustive; diagnostic; -dump dot; -simulate) + replay on WorkflowDatabaseManager/CylcWorkflowDAO"
